@@ -481,6 +481,8 @@ def run(repo, res, tier):
     mpt_rules(repo, res)
     graph_walkers(repo, res)
     cycseed(repo, res)
+    from . import c02
+    c02.postorder(repo, res)
     from . import c11
     from vlib import rules_skips as SK, tables, rules_pairing as RPAIR
     RPAIR.pairing_rule(repo, res, only={"check::traverse_nonterminal_dependencies_dfs", "check::get_nonterminals_resolution_order", "check::do_check_subword_spaces", "dfa::DFA::do_check_ambiguity_best_effort"})
